@@ -262,10 +262,13 @@ EbHandle svt_create_semaphore(uint32_t initial_count, uint32_t max_count) {
     UNUSED(max_count);
 
     semaphore_handle = (sem_t *)malloc(sizeof(sem_t));
-    if (semaphore_handle != NULL)
+    if (semaphore_handle != NULL &&
         sem_init((sem_t *)semaphore_handle, // semaphore handle
                  0, // shared semaphore (not local)
-                 initial_count); // initial count
+                 initial_count)) { // initial count
+        free(semaphore_handle);
+        semaphore_handle = NULL;
+    }
 #endif
 
     return semaphore_handle;
@@ -355,9 +358,11 @@ EbHandle svt_create_mutex(void) {
 
     mutex_handle = (EbHandle)malloc(sizeof(pthread_mutex_t));
 
-    if (mutex_handle != NULL) {
+    if (mutex_handle != NULL &&
         pthread_mutex_init((pthread_mutex_t *)mutex_handle,
-                           NULL); // default attributes
+                           NULL)) { // default attributes
+        free(mutex_handle);
+        mutex_handle = NULL;
     }
 #endif
 
